@@ -33,7 +33,7 @@ type PodS struct {
 	Hash      string `json:"hash"` // template identity of the hash annotation: A,B,.. | none | other
 	Tol       bool   `json:"tol"`  // carries all standard DaemonSet tolerations
 	Res       string `json:"res"`  // resource class of container "main": tmpl | r1 | r2 | r3 | other
-	NodeHash  string `json:"nodeHash"` // none | ok (equals harness' hash of the node's override annotations now) | stale
+	NodeHash  string `json:"nodeHash"` // ok (agrees with the node's override annotations now) | stale
 	SetLabel  string `json:"setLabel"`
 	Phase     string `json:"phase"`
 	Ready     bool   `json:"ready"`
@@ -46,6 +46,7 @@ type PodS struct {
 	StartAge  int    `json:"startAge"`   // units since status.startTime, -1 if unset
 	CLabel    bool   `json:"clabel"`
 	Age       int    `json:"age"`
+	Born      int    `json:"born"` // creation instant in virtual seconds since the start of the harness process
 	Foreign   bool   `json:"foreign"` // created by the environment, not by a reconciler
 }
 
@@ -79,16 +80,24 @@ type RSS struct {
 	Conds     map[string]CondS `json:"conds"`
 }
 
+// IntPct is the projection of an IntOrString: an absolute number or a percentage.
+type IntPct struct {
+	V   int  `json:"v"`
+	Pct bool `json:"pct"`
+	Set bool `json:"set"`
+	Bad bool `json:"bad"`
+}
+
 // StratS is the projection of spec.strategy (only what the formulas need).
 type StratS struct {
-	MaxUnavailable   string `json:"maxUnavailable"` // "2" or "50%"
-	MaxSchedFailure  string `json:"maxSchedFailure"`
+	MaxUnavailable   IntPct `json:"maxUnavailable"`
+	MaxSchedFailure  IntPct `json:"maxSchedFailure"`
 	MaxParallel      int    `json:"maxParallel"`
 	SlowStartInterval int   `json:"slowStartInterval"` // units
-	SlowStartIncrease string `json:"slowStartIncrease"`
+	SlowStartIncrease IntPct `json:"slowStartIncrease"`
 	Frequency        int    `json:"frequency"` // units
 	Canary           bool   `json:"canary"`
-	CReplicas        string `json:"cReplicas"`
+	CReplicas        IntPct `json:"cReplicas"`
 	CDuration        int    `json:"cDuration"` // units, -1 unset
 	CNoRestarts      int    `json:"cNoRestarts"`
 	CMode            string `json:"cMode"`
